@@ -1,6 +1,7 @@
 package sender
 
 import (
+	"fmt"
 	"io"
 	"path/filepath"
 	"strings"
@@ -59,6 +60,10 @@ func RecvFilterList(c *rsyncwire.Conn) (*filterRuleList, error) {
 			return nil, err
 		}
 		l.addRule(fr)
+		if fr.flag&filtruleWild != 0 {
+			// Fail the session instead of panicking in matches().
+			return nil, fmt.Errorf("wildcard filter rules not yet implemented: %q", line)
+		}
 	}
 	return &l, nil
 }
